@@ -5,7 +5,9 @@
 //! request : C19.check \t <use> \t <type>;<type>;...
 //!   use   : sb | rwsb | bload | rwbload | rwbstore | baload | rwbaload | rwbastore
 //!   type  : h i u f d b            scalar half/int/uint/float/double/bool
-//!           f3                      vector          f2x3  matrix
+//!           f3 (f1..f4)             vector          f2x3  matrix (2 rows, 3 columns; suffix r / c = row_major /
+//!                                   column_major modifier on the member)
+//!           ?name                   a type name the language does not have (float16_t, uint64_t, ...)
 //!           ei eu                   enum with underlying int / uint
 //!           [N type]                array of N elements
 //!           {type type ...}         struct (members in order)
@@ -18,11 +20,18 @@ use crate::util::*;
 pub enum Ty {
     Scalar(char),
     Vec(char, u32),
-    Mat(char, u32, u32),
+    /// scalar, rows, columns, 'r' row_major / 'c' column_major / '-' no modifier
+    Mat(char, u32, u32, char),
     Enum(bool),
+    /// a type name that is not declared in the language
+    Undeclared(String),
+    /// an object type (texture, sampler, raw buffer) as a member: no layout
+    Object(String),
     Arr(Box<Ty>, u64),
     Struct(Vec<Ty>),
 }
+
+const OBJECTS: &[&str] = &["Texture2D", "SamplerState", "ByteAddressBuffer", "RWTexture3D"];
 
 const USES: &[&str] = &[
     "sb", "rwsb", "bload", "rwbload", "rwbstore", "baload", "rwbaload", "rwbastore",
@@ -35,7 +44,9 @@ pub fn show(t: &Ty) -> String {
     match t {
         Ty::Scalar(c) => c.to_string(),
         Ty::Vec(c, n) => format!("{}{}", c, n),
-        Ty::Mat(c, r, k) => format!("{}{}x{}", c, r, k),
+        Ty::Mat(c, r, k, m) => format!("{}{}x{}{}", c, r, k, if *m == '-' { String::new() } else { m.to_string() }),
+        Ty::Undeclared(n) => format!("?{}", n),
+        Ty::Object(n) => format!("@{}", n),
         Ty::Enum(false) => "ei".into(),
         Ty::Enum(true) => "eu".into(),
         Ty::Arr(t, n) => format!("[{} {}]", n, show(t)),
@@ -88,8 +99,15 @@ fn parse_ty(toks: &[String], i: &mut usize) -> Option<Ty> {
         }
         "ei" => Some(Ty::Enum(false)),
         "eu" => Some(Ty::Enum(true)),
+        w if w.starts_with('@') && OBJECTS.contains(&&w[1..]) => Some(Ty::Object(w[1..].to_string())),
+        w if w.starts_with('?') && w.len() > 1 && w[1..].chars().all(|c| c.is_ascii_alphanumeric() || c == '_') => {
+            Some(Ty::Undeclared(w[1..].to_string()))
+        }
         w => {
             let cs: Vec<char> = w.chars().collect();
+            if w == "v" {
+                return Some(Ty::Scalar('v')); // void: only as the type argument of a typed load (C19.prog)
+            }
             if !"hiufdb".contains(cs[0]) {
                 return None;
             }
@@ -97,7 +115,8 @@ fn parse_ty(toks: &[String], i: &mut usize) -> Option<Ty> {
             match cs.len() {
                 1 => Some(Ty::Scalar(cs[0])),
                 2 => Some(Ty::Vec(cs[0], d(cs[1])?)),
-                4 if cs[2] == 'x' => Some(Ty::Mat(cs[0], d(cs[1])?, d(cs[3])?)),
+                4 if cs[2] == 'x' => Some(Ty::Mat(cs[0], d(cs[1])?, d(cs[3])?, '-')),
+                5 if cs[2] == 'x' && (cs[4] == 'r' || cs[4] == 'c') => Some(Ty::Mat(cs[0], d(cs[1])?, d(cs[3])?, cs[4])),
                 _ => None,
             }
         }
@@ -128,55 +147,179 @@ fn scalar_name(c: char) -> &'static str {
         'u' => "uint",
         'f' => "float",
         'd' => "double",
+        'v' => "void",
         _ => "bool",
     }
+}
+
+/// a name used as a template argument: `A<B<x> >` (the closing brackets must not form `>>`)
+fn targ(name: &str) -> String {
+    if name.ends_with('>') { format!("{} ", name) } else { name.to_string() }
 }
 
 struct Src {
     lines: Vec<String>,
     next: usize,
+    /// 0 = plain spelling; otherwise the seed of the spelling choices (typedef, namespace, template struct,
+    /// base struct, method, `dword`, `vector<T, n>`, `matrix<T, r, c>`): the layout must not depend on them
+    style: u64,
 }
 
 impl Src {
-    /// spelling of a type usable as a template argument / declaration specifier, plus array suffix
-    fn spell(&mut self, t: &Ty) -> (String, String) {
+    fn choose(&self, salt: u64, n: u64) -> u64 {
+        if self.style == 0 {
+            return 0;
+        }
+        let mut z = self.style.wrapping_mul(0x9E37_79B9_7F4A_7C15) ^ salt.wrapping_mul(0xD1B5_4A32_D192_ED03);
+        z ^= z >> 29;
+        z = z.wrapping_mul(0xBF58_476D_1CE4_E5B9);
+        z ^= z >> 32;
+        z % n
+    }
+
+    /// spelling of a type: (modifier prefix of a member declaration, type name, array suffix)
+    fn spell(&mut self, t: &Ty) -> (String, String, String) {
         match t {
-            Ty::Scalar(c) => (scalar_name(*c).into(), String::new()),
-            Ty::Vec(c, n) => (format!("{}{}", scalar_name(*c), n), String::new()),
-            Ty::Mat(c, r, k) => (format!("{}{}x{}", scalar_name(*c), r, k), String::new()),
+            Ty::Undeclared(n) => (String::new(), n.clone(), String::new()),
+            Ty::Object(n) => (
+                String::new(),
+                if n == "RWTexture3D" { "RWTexture3D<float4>".into() } else { n.clone() },
+                String::new(),
+            ),
+            Ty::Scalar(c) => {
+                let salt = self.next as u64 * 31 + 5;
+                self.next += 1;
+                let n = if *c == 'u' && self.choose(salt, 3) == 1 { "dword" } else { scalar_name(*c) };
+                (String::new(), n.into(), String::new())
+            }
+            Ty::Vec(c, n) => {
+                let salt = self.next as u64 * 31 + 7;
+                self.next += 1;
+                if self.choose(salt, 4) == 1 {
+                    (String::new(), format!("vector<{}, {}>", scalar_name(*c), n), String::new())
+                } else {
+                    (String::new(), format!("{}{}", scalar_name(*c), n), String::new())
+                }
+            }
+            Ty::Mat(c, r, k, m) => {
+                let salt = self.next as u64 * 31 + 9;
+                self.next += 1;
+                let pre = match m {
+                    'r' => "row_major ",
+                    'c' => "column_major ",
+                    _ => "",
+                };
+                if self.choose(salt, 4) == 1 {
+                    (pre.into(), format!("matrix<{}, {}, {}>", scalar_name(*c), r, k), String::new())
+                } else {
+                    (pre.into(), format!("{}{}x{}", scalar_name(*c), r, k), String::new())
+                }
+            }
             Ty::Enum(unsigned) => {
                 let id = self.next;
                 self.next += 1;
                 let init = if *unsigned { " = 4294967295" } else { "" };
-                self.lines.push(format!("enum E{} {{ E{}_A{} }};", id, id, init));
-                (format!("E{}", id), String::new())
+                let extra = if self.choose(id as u64 * 31 + 11, 3) == 1 && !*unsigned {
+                    format!(", E{}_B = -7, E{}_C", id, id)
+                } else {
+                    String::new()
+                };
+                self.lines.push(format!("enum E{} {{ E{}_A{}{} }};", id, id, init, extra));
+                (String::new(), format!("E{}", id), String::new())
             }
             Ty::Arr(e, n) => {
-                let (base, suffix) = self.spell(e);
-                (base, format!("[{}]{}", n, suffix))
+                let (pre, base, suffix) = self.spell(e);
+                (pre, base, format!("[{}]{}", n, suffix))
             }
             Ty::Struct(ms) => {
-                let mut body = String::new();
+                let mut decls = Vec::new();
                 for (k, m) in ms.iter().enumerate() {
-                    let (base, suffix) = self.spell(m);
-                    body.push_str(&format!(" {} m{}{};", base, k, suffix));
+                    let (mut pre, base, suffix) = self.spell(m);
+                    let mut name = format!("m{}{}", k, suffix);
+                    // member decorations that must not change the layout: `static` (the compiler treats and emits a
+                    // static member as an ordinary one), `precise`, interpolation modifiers, semantics
+                    let salt = (self.next as u64) * 131 + k as u64 * 7 + 3;
+                    if pre.is_empty() && !matches!(m, Ty::Undeclared(_) | Ty::Object(_)) {
+                        match self.choose(salt, 12) {
+                            1 => pre = "static ".into(),
+                            2 if matches!(m, Ty::Scalar('f') | Ty::Vec('f', _)) => pre = "precise ".into(),
+                            3 if matches!(m, Ty::Scalar('f') | Ty::Vec('f', _)) => pre = "nointerpolation ".into(),
+                            4 if matches!(m, Ty::Scalar(_) | Ty::Vec(..)) => name = format!("{} : TEXCOORD{}", name, k),
+                            _ => {}
+                        }
+                    }
+                    decls.push((pre, base, name));
                 }
                 let id = self.next;
                 self.next += 1;
-                self.lines.push(format!("struct S{} {{{} }};", id, body));
-                (format!("S{}", id), String::new())
+                let variant = self.choose(id as u64 * 31 + 13, 9);
+                let member = |d: &(String, String, String)| format!(" {}{} {};", d.0, d.1, d.2);
+                let body: String = decls.iter().map(member).collect();
+                let name;
+                match variant {
+                    3 => {
+                        self.lines.push(format!("namespace N{} {{ struct S{} {{{} }}; }}", id, id, body));
+                        name = format!("N{}::S{}", id, id);
+                    }
+                    4 if !decls.is_empty() && decls[0].0.is_empty() && !decls[0].2.contains('[') => {
+                        let rest: String = decls[1..].iter().map(member).collect();
+                        self.lines.push(format!(
+                            "template<typename T> struct S{} {{ T m0;{} }};", id, rest
+                        ));
+                        name = format!("S{}<{}>", id, targ(&decls[0].1));
+                    }
+                    5 if decls.len() >= 2 => {
+                        let j = 1 + self.choose(id as u64 * 31 + 17, decls.len() as u64 - 1) as usize;
+                        let base: String = decls[..j].iter().map(member).collect();
+                        let rest: String = decls[j..].iter().map(member).collect();
+                        self.lines.push(format!(
+                            "struct B{} {{{} }}; struct S{} : B{} {{{} }};", id, base, id, id, rest
+                        ));
+                        name = format!("S{}", id);
+                    }
+                    6 => {
+                        self.lines.push(format!(
+                            "struct S{} {{{} float len{}() {{ return 1.0; }} }};", id, body, id
+                        ));
+                        name = format!("S{}", id);
+                    }
+                    7 => {
+                        self.lines.push(format!("struct S{} {{{} }}; typedef S{} T{};", id, body, id, id));
+                        name = format!("T{}", id);
+                    }
+                    _ => {
+                        self.lines.push(format!("struct S{} {{{} }};", id, body));
+                        name = format!("S{}", id);
+                    }
+                }
+                (String::new(), name, String::new())
             }
+        }
+    }
+
+    /// a name usable as a template argument for the type (arrays go through a typedef), and the 1-based line
+    /// a diagnostic located at the type's definition points at (meaningful for structs only)
+    fn top(&mut self, t: &Ty) -> (String, usize) {
+        let (_pre, base, suffix) = self.spell(t);
+        let def_line = self.lines.len();
+        if suffix.is_empty() {
+            (base, def_line)
+        } else {
+            let id = self.next;
+            self.next += 1;
+            self.lines.push(format!("typedef {} A{}{};", base, id, suffix));
+            (format!("A{}", id), def_line)
         }
     }
 }
 
 /// program text and, per request type, the 1-based line a diagnostic about it points at
 pub fn source(usage: &str, tys: &[Ty]) -> (String, Vec<usize>) {
-    let mut s = Src { lines: Vec::new(), next: 0 };
+    let mut s = Src { lines: Vec::new(), next: 0, style: 0 };
     let mut blame = Vec::new();
     let mut names = Vec::new();
     for t in tys {
-        let (base, suffix) = s.spell(t);
+        let (_pre, base, suffix) = s.spell(t);
         // arrays cannot be template arguments; the generators never put one at the top
         names.push(format!("{}{}", base, suffix));
         blame.push(s.lines.len()); // line of the struct definition (if it is one)
@@ -225,47 +368,85 @@ pub enum Real {
     Panic(String),
 }
 
-fn run_real(src: &str, blame: &[usize]) -> Real {
+/// verdict of compile() with validation on; locations are 1-based line numbers of main.rssl
+fn run_real_lines(src: &str, target: &str, pipeline_mode: bool) -> Real {
     let text = src.to_string();
+    let tgt = match target {
+        "dx" => rssl::Target::HlslForDirectX,
+        "msl" => rssl::Target::Msl,
+        _ => rssl::Target::HlslForVulkan,
+    };
     let r = guard(move || {
         let mut files = [("main.rssl", text.as_str())];
-        let args = rssl::CompileArgs::new("main.rssl", &mut files, rssl::Target::HlslForVulkan)
-            .no_pipeline_mode()
-            .support_buffer_address(true)
+        let mut args = rssl::CompileArgs::new("main.rssl", &mut files, tgt)
+            .support_buffer_address(matches!(tgt, rssl::Target::HlslForVulkan))
             .validate_layout_consistency(true);
+        if !pipeline_mode {
+            args = args.no_pipeline_mode();
+        }
         match rssl::compile(args) {
             Ok(_) => Ok(()),
             Err(e) => Err(format!("{}", e)),
         }
     });
     let msg = match r {
-        Err(p) => return Real::Panic(p),
+        Err(p) => {
+            // a panic: inside the layout checker, or in a later stage after the layout check passed?
+            let text = src.to_string();
+            let direct = guard(move || match front_end_src(&text) {
+                Ok(ir) => Some(rssl::ir::layout_checker::check_layout(&ir).is_ok()),
+                Err(_) => None,
+            });
+            return match direct {
+                Ok(Some(true)) => Real::AcceptedThenError(format!("panic: {}", p)),
+                Err(q) => Real::Panic(q),
+                _ => Real::Panic(p),
+            };
+        }
         Ok(Ok(())) => return Real::Accepted,
         Ok(Err(m)) => m,
     };
     if std::env::var("C19_DEBUG").is_ok() {
         eprintln!("--- source\n{}--- message\n{}", src, msg);
     }
-    let index = |m: &str| -> Option<usize> {
+    let line = |m: &str| -> Option<usize> {
         // "main.rssl:LINE:COL: error: ..."
         let a = m.find("main.rssl:")? + "main.rssl:".len();
         let b = a + m[a..].find(|c: char| !c.is_ascii_digit())?;
-        let line: usize = m[a..b].parse().ok()?;
-        blame.iter().position(|l| *l == line)
+        m[a..b].parse().ok()
     };
     if msg.contains("struct has unknown size") {
-        return Real::Unknown(index(&msg));
+        return Real::Unknown(line(&msg));
     }
     if let Some(p) = msg.find("struct has size=") {
-        let nums: Vec<u64> = msg[p..]
-            .split(|c: char| !c.is_ascii_digit())
-            .filter(|s| !s.is_empty())
-            .take(4)
-            .filter_map(|s| s.parse().ok())
-            .collect();
-        if nums.len() == 4 {
-            return Real::Mismatch(index(&msg), [nums[0], nums[1], nums[2], nums[3]]);
+        // "struct has size=A align=B on HLSL but size=C align=D on Metal": the four numbers with their labels
+        let rest = &msg[p..];
+        let want = ["struct has size=", " align=", " on HLSL but size=", " align=", " on Metal"];
+        let mut nums = Vec::new();
+        let mut at = 0usize;
+        let mut good = true;
+        for (k, w) in want.iter().enumerate() {
+            if !rest[at..].starts_with(w) {
+                good = false;
+                break;
+            }
+            at += w.len();
+            if k + 1 < want.len() {
+                let e = at + rest[at..].find(|c: char| !c.is_ascii_digit()).unwrap_or(rest.len() - at);
+                match rest[at..e].parse::<u64>() {
+                    Ok(v) => nums.push(v),
+                    Err(_) => {
+                        good = false;
+                        break;
+                    }
+                }
+                at = e;
+            }
         }
+        if good && nums.len() == 4 {
+            return Real::Mismatch(line(&msg), [nums[0], nums[1], nums[2], nums[3]]);
+        }
+        return Real::Error(format!("unparsable layout message: {}", msg.lines().next().unwrap_or("")));
     }
     // an error that does not come from the layout checker: did the layout check itself pass?
     let text = src.to_string();
@@ -277,6 +458,18 @@ fn run_real(src: &str, blame: &[usize]) -> Real {
         Ok(Some(true)) => Real::AcceptedThenError(msg.lines().next().unwrap_or("").to_string()),
         _ => Real::Error(msg.lines().next().unwrap_or("").to_string()),
     }
+}
+
+fn map_loc(r: Real, f: impl Fn(usize) -> Option<usize>) -> Real {
+    match r {
+        Real::Unknown(l) => Real::Unknown(l.and_then(&f)),
+        Real::Mismatch(l, n) => Real::Mismatch(l.and_then(&f), n),
+        other => other,
+    }
+}
+
+fn run_real(src: &str, blame: &[usize]) -> Real {
+    map_loc(run_real_lines(src, "vk", false), |line| blame.iter().position(|l| *l == line))
 }
 
 fn show_k(k: Option<usize>) -> String {
@@ -322,11 +515,14 @@ fn up(x: u64, a: u64) -> u64 {
     x.div_ceil(a) * a
 }
 
-fn scalar_bytes(c: char) -> Option<u64> {
+/// bool is a 32-bit value in an HLSL structured buffer and one byte in Metal
+fn scalar_bytes(rule: Rule, c: char) -> Option<u64> {
     match c {
+        'v' => None,
         'h' => Some(2),
         'i' | 'u' | 'f' => Some(4),
         'd' => Some(8),
+        'b' => Some(if rule == Rule::HlslSB { 4 } else { 1 }),
         _ => None,
     }
 }
@@ -335,13 +531,14 @@ fn scalar_bytes(c: char) -> Option<u64> {
 fn reference(rule: Rule, t: &Ty, path: &str, top: bool) -> Option<(u64, u64, Vec<(String, u64)>, bool, bool)> {
     // (size, align, fields, self_tail_pad, inner_tail_pad)
     match t {
+        Ty::Undeclared(_) | Ty::Object(_) => None,
         Ty::Scalar(c) => {
-            let b = scalar_bytes(*c)?;
+            let b = scalar_bytes(rule, *c)?;
             Some((b, b, vec![], false, false))
         }
         Ty::Enum(_) => Some((4, 4, vec![], false, false)),
         Ty::Vec(c, n) => {
-            let b = scalar_bytes(*c)?;
+            let b = scalar_bytes(rule, *c)?;
             if *n < 1 || *n > 4 {
                 return None;
             }
@@ -354,24 +551,50 @@ fn reference(rule: Rule, t: &Ty, path: &str, top: bool) -> Option<(u64, u64, Vec
                 }
             }
         }
-        Ty::Mat(..) => None,
+        // `floatRxC` = R rows, C columns.  HLSL structured buffer: R*C scalars, tightly packed, aligned like the
+        // scalar (row_major / column_major only permute the elements).  Metal: the compiler emits
+        // `metal::float{C}x{R}` = C columns, each an R-component vector with the vector's size and alignment; Metal
+        // has matrices of half and float with 2-4 rows and columns only.
+        Ty::Mat(c, r, k, _) => {
+            if !(1..=4).contains(r) || !(1..=4).contains(k) {
+                return None;
+            }
+            let b = scalar_bytes(rule, *c)?;
+            let (r, k) = (*r as u64, *k as u64);
+            match rule {
+                Rule::HlslSB => Some((r * k * b, b, vec![], false, false)),
+                Rule::Metal => {
+                    if !(*c == 'h' || *c == 'f') || r < 2 || k < 2 {
+                        return None;
+                    }
+                    let lanes = if r == 3 { 4 } else { r };
+                    Some((k * lanes * b, lanes * b, vec![], false, false))
+                }
+            }
+        }
         Ty::Arr(e, n) => {
+            if *n == 0 {
+                return None;
+            }
             let (es, ea, ef, self_pad, inner_pad) = reference(rule, e, "", false)?;
             let stride = up(es, ea);
             let mut fields = Vec::new();
             for k in 0..*n {
-                let base = k * stride;
-                fields.push((format!("{}[{}]", path, k), base));
-                for (p, o) in &ef {
-                    fields.push((format!("{}[{}]{}", path, k, p), base + o));
+                let base = k.checked_mul(stride)?;
+                if k < 64 {
+                    fields.push((format!("{}[{}]", path, k), base));
+                    for (p, o) in &ef {
+                        fields.push((format!("{}[{}]{}", path, k, p), base + o));
+                    }
                 }
             }
             let _ = top;
-            Some((n * stride, ea, fields, false, self_pad || inner_pad))
+            Some((n.checked_mul(stride)?, ea, fields, false, self_pad || inner_pad))
         }
         Ty::Struct(ms) => {
             if ms.is_empty() {
-                return None;
+                // HLSL: no members, no bytes.  Metal is C++: every complete object type has size >= 1
+                return Some((if rule == Rule::HlslSB { 0 } else { 1 }, 1, vec![], false, false));
             }
             let mut cur = 0u64;
             let mut align = 1u64;
@@ -413,87 +636,543 @@ fn difference(h: &RefLayout, m: &RefLayout) -> Option<String> {
     None
 }
 
+fn has_undeclared(t: &Ty) -> bool {
+    match t {
+        Ty::Undeclared(_) => true,
+        Ty::Arr(e, _) => has_undeclared(e),
+        Ty::Struct(ms) => ms.iter().any(has_undeclared),
+        _ => false,
+    }
+}
+
+fn contains_empty_struct(t: &Ty) -> bool {
+    match t {
+        Ty::Struct(ms) => ms.is_empty() || ms.iter().any(contains_empty_struct),
+        Ty::Arr(e, _) => contains_empty_struct(e),
+        _ => false,
+    }
+}
+
+/// the type without its empty-struct members (None when nothing is left)
+fn strip_empty(t: &Ty) -> Option<Ty> {
+    match t {
+        Ty::Struct(ms) => {
+            let kept: Vec<Ty> = ms.iter().filter_map(strip_empty).collect();
+            if kept.is_empty() { None } else { Some(Ty::Struct(kept)) }
+        }
+        Ty::Arr(e, n) => strip_empty(e).map(|e| Ty::Arr(Box::new(e), *n)),
+        other => Some(other.clone()),
+    }
+}
+
+fn agrees(t: &Ty) -> Option<bool> {
+    let h = ref_layout(Rule::HlslSB, t)?;
+    let m = ref_layout(Rule::Metal, t)?;
+    Some(difference(&h, &m).is_none())
+}
+
+/// Why a structure used at one of the property's sites must not pass validation: (defect class, detail).
+/// `None`: the two reference layouts agree (or the type is not a structure: the property is silent).
+fn must_reject(t: &Ty) -> Option<(&'static str, String)> {
+    if !matches!(t, Ty::Struct(_)) {
+        return None;
+    }
+    if has_undeclared(t) {
+        return Some(("undeclared-type", "a member type is not declared".into()));
+    }
+    let (h, m) = match (ref_layout(Rule::HlslSB, t), ref_layout(Rule::Metal, t)) {
+        (Some(h), Some(m)) => (h, m),
+        _ => return Some(("no-reference-layout", "one of the two rule sets has no layout for it".into())),
+    };
+    let d = difference(&h, &m)?;
+    if contains_empty_struct(t) {
+        let caused_by_empty = match strip_empty(t) {
+            None => true,
+            Some(u) => agrees(&u) == Some(true),
+        };
+        if caused_by_empty {
+            return Some(("empty-struct", d));
+        }
+    }
+    let class = if h.inner_tail_pad || m.inner_tail_pad {
+        "nested-tail-pad"
+    } else if h.size == m.size {
+        "offsets-only"
+    } else {
+        "sizes"
+    };
+    Some((class, d))
+}
+
+/// a type used at a site the property names; `site_class` = Some(..) for the kinds of site that get their own
+/// defect class (a finding there must not hide a finding at an ordinary site)
+struct Use<'a> {
+    ty: &'a Ty,
+    site_class: Option<&'static str>,
+    what: String,
+}
+
+enum Blamed<'a> {
+    Type(&'a Ty),
+    Unlocated,
+}
+
+const WEAK_CLASSES: &[&str] = &["site-sbarr", "site-sbmem", "empty-struct"];
+
 /// The property's oracle on the real verdict. Returns the oracle string and a statistics class.
-fn oracle(tys: &[Ty], real: &Real) -> (String, &'static str) {
+fn judge(uses: &[Use], all: &[Ty], blamed: Blamed, real: &Real) -> (String, String) {
     match real {
         Real::Accepted | Real::AcceptedThenError(_) => {
-            // every element type must have identical reference layouts
-            for t in tys {
-                if !matches!(t, Ty::Struct(_)) {
-                    continue; // the property speaks about structures used as element types
+            // every structure used at a property site must have identical reference layouts
+            let mut bad: Vec<(String, String)> = Vec::new();
+            for u in uses {
+                if let Some((class, d)) = must_reject(u.ty) {
+                    let class = u.site_class.unwrap_or(class);
+                    bad.push((class.to_string(), format!("{} {} differs: {}", u.what, show(u.ty), d)));
                 }
-                let (h, m) = match (ref_layout(Rule::HlslSB, t), ref_layout(Rule::Metal, t)) {
-                    (Some(h), Some(m)) => (h, m),
-                    _ => return (format!("FAIL:accepted/no-reference-layout {}", show(t)), "accepted-unknown"),
-                };
-                if let Some(d) = difference(&h, &m) {
-                    let class = if h.inner_tail_pad || m.inner_tail_pad {
-                        "nested-tail-pad"
-                    } else if h.size == m.size {
-                        "offsets-only"
-                    } else {
-                        "sizes"
-                    };
-                    if let Real::AcceptedThenError(e) = real {
-                        // compile() as a whole did not succeed: the property's premise is false
-                        return (format!("SKIP:layout check accepted a differing type but a later stage failed: {}", e), "accepted-then-error");
-                    }
+            }
+            let pick = bad.iter().find(|(c, _)| !WEAK_CLASSES.contains(&c.as_str())).or(bad.first());
+            if let Some((class, detail)) = pick {
+                if let Real::AcceptedThenError(e) = real {
+                    // compile() as a whole did not succeed: the property's premise is false
                     return (
-                        format!("FAIL:accepted/{} {} differs: {}", class, show(t), d),
-                        if class == "nested-tail-pad" { "accepted-differ-nested" } else if class == "offsets-only" { "accepted-differ-offsets" } else { "accepted-differ-sizes" },
+                        format!("SKIP:layout check accepted a differing type but a later stage failed: {}", e),
+                        "accepted-then-error".into(),
                     );
                 }
+                return (format!("FAIL:accepted/{} {}", class, detail), format!("accepted-differ-{}", class));
             }
             if let Real::AcceptedThenError(_) = real {
-                return ("ok".into(), "accepted-then-error");
+                return ("ok".into(), "accepted-then-error".into());
             }
-            ("ok".into(), "accepted-agree")
+            ("ok".into(), "accepted-agree".into())
         }
-        Real::Mismatch(k, n) => {
-            let k = match k {
-                Some(k) if *k < tys.len() => *k,
-                _ if tys.len() == 1 => 0,
-                _ => return ("SKIP:cannot tell which type was rejected".into(), "rejected-unlocated"),
+        Real::Mismatch(_, n) => {
+            let t = match blamed {
+                Blamed::Type(t) => t,
+                Blamed::Unlocated if all.len() == 1 => &all[0],
+                // a structure always has a location: the blamed type is not one, the property is silent
+                Blamed::Unlocated => return ("ok".into(), "rejected-unlocated".into()),
             };
-            let t = &tys[k];
             if !matches!(t, Ty::Struct(_)) {
-                return ("ok".into(), "rejected-non-struct");
+                return ("ok".into(), "rejected-non-struct".into());
             }
             match (ref_layout(Rule::HlslSB, t), ref_layout(Rule::Metal, t)) {
                 (Some(h), Some(m)) => {
                     if n[0] != h.size || n[2] != m.size {
-                        let class = if h.inner_tail_pad || m.inner_tail_pad { "nested-tail-pad" } else { "sizes" };
+                        let class = if contains_empty_struct(t) {
+                            "empty-struct"
+                        } else if h.inner_tail_pad || m.inner_tail_pad {
+                            "nested-tail-pad"
+                        } else {
+                            "sizes"
+                        };
                         (
                             format!(
                                 "FAIL:rejected/{} {} reported hlsl={} metal={} but true sizes are hlsl={} metal={}",
                                 class, show(t), n[0], n[2], h.size, m.size
                             ),
-                            if class == "nested-tail-pad" { "rejected-wrong-size-nested" } else { "rejected-wrong-size" },
+                            format!("rejected-wrong-size-{}", class),
+                        )
+                    } else if n[1] != h.align || n[3] != m.align {
+                        (
+                            format!(
+                                "FAIL:rejected/align {} reported align hlsl={} metal={} but true alignments are hlsl={} metal={}",
+                                show(t), n[1], n[3], h.align, m.align
+                            ),
+                            "rejected-wrong-align".into(),
                         )
                     } else if difference(&h, &m).is_none() {
-                        ("ok".into(), "rejected-though-agree")
+                        ("ok".into(), "rejected-though-agree".into())
+                    } else if h.size == m.size {
+                        ("ok".into(), "rejected-true-sizes-offsets-differ".into())
                     } else {
-                        ("ok".into(), "rejected-true-sizes")
+                        ("ok".into(), "rejected-true-sizes".into())
                     }
                 }
-                _ => (format!("FAIL:rejected/no-reference-layout {}", show(t)), "rejected-unknown"),
+                _ => (format!("FAIL:rejected/no-reference-layout {}", show(t)), "rejected-unknown".into()),
             }
         }
         Real::Unknown(_) => {
-            // no sizes are reported; fine when some type has no reference layout
-            let any_none = tys
+            // a clean diagnostic without sizes; fine when some type has no reference layout
+            let any_none = all
                 .iter()
                 .any(|t| ref_layout(Rule::HlslSB, t).is_none() || ref_layout(Rule::Metal, t).is_none());
             if any_none {
-                ("ok".into(), "unknown-size")
+                ("ok".into(), "unknown-size".into())
             } else {
-                ("ok".into(), "unknown-size-though-known")
+                ("ok".into(), "unknown-size-though-known".into())
             }
         }
-        Real::Error(e) => (format!("SKIP:compile error outside the layout checker: {}", e), "other-error"),
+        Real::Error(e) => {
+            if all.iter().any(has_undeclared) {
+                // a type the language does not have: a clean diagnostic, as it must be
+                ("ok".into(), "undeclared-type-error".into())
+            } else {
+                (format!("SKIP:compile error outside the layout checker: {}", e), "other-error".into())
+            }
+        }
         // panics are C08's subject; C19 only needs the model to predict them
-        Real::Panic(_) => ("ok".into(), "panic"),
+        Real::Panic(_) => ("ok".into(), "panic".into()),
     }
+}
+
+fn oracle(tys: &[Ty], real: &Real) -> (String, String) {
+    let uses: Vec<Use> = tys.iter().map(|t| Use { ty: t, site_class: None, what: String::new() }).collect();
+    let blamed = match real {
+        Real::Mismatch(Some(k), _) if *k < tys.len() => Blamed::Type(&tys[*k]),
+        _ => Blamed::Unlocated,
+    };
+    judge(&uses, tys, blamed, real)
+}
+
+// ------------------------------------------------------------------------------------------------
+// whole programs: which uses of a type does validation look at? (C19.prog)
+//
+// request : C19.prog \t <target>:<mode>:<style> \t <type>;<type>;... \t <site>,<site>,...
+//   target: vk | dx | msl          mode: np (no_pipeline_mode) | pipe (a Pipeline block, pipeline mode)
+//   style : 0 = plain spelling, otherwise the seed of spelling choices (see `Src`)
+//   site  : <kind>@<type index>           a global declaration, in source order
+//           <kind>.<wrap>@<type index>    a typed load / store
+//   global kinds: sb rwsb sbc sbtd sbreg (structured buffers, spelled differently)
+//                 sbarr rwsbarr sbarr2 sbarru sbbl (arrays of structured buffers; sbbl = [[rssl::bindless]])
+//                 sbmem (a structured buffer that is a member of a global struct) sbparam (a function parameter)
+//                 cb (ConstantBuffer<T>) cbuf (cbuffer member) gv gs st (plain / groupshared / static variable)
+//   load/store  : bload bload2 rwbload rwbload2 rwbstore rwbstoret baload rwbaload rwbastore rwbastoret
+//                 (…2 = the overload with a status out-parameter, …t = explicit template argument)
+//   wrap        : m (in main) u (in a function nobody calls) t (in a function template instantiated from main)
+//                 t0 (in a function template that is never instantiated) me (in a struct method)
+//                 p (buffer is a function parameter) a (buffer is an element of a global array of buffers)
+//                 gi (initialiser of a static global) da (default argument of a function) ex (operand of sizeof in
+//                 main, no variable of the type anywhere); gi / da: plain loads only, ex: loads only
+// observe : ok | unknown@L | mismatch@L hlsl=SIZE/ALIGN metal=SIZE/ALIGN | error | panic:<message>
+//   L = G<site index> (located at that global) | T<type index> (located at that struct's definition) | ?
+// ------------------------------------------------------------------------------------------------
+pub const GLOBAL_KINDS: &[&str] = &[
+    "sb", "rwsb", "sbc", "sbtd", "sbreg", "sbarr", "rwsbarr", "sbarr2", "sbarru", "sbbl", "sbmem", "sbparam", "cb",
+    "cbuf", "gv", "gs", "st",
+];
+pub const FN_KINDS: &[&str] = &[
+    "bload", "bload2", "rwbload", "rwbload2", "rwbstore", "rwbstoret", "baload", "rwbaload", "rwbastore", "rwbastoret",
+];
+pub const WRAPS: &[&str] = &["m", "u", "t", "t0", "me", "p", "a", "gi", "da", "ex"];
+
+#[derive(Clone, Debug)]
+pub struct Site {
+    pub kind: String,
+    /// empty for globals
+    pub wrap: String,
+    pub ty: usize,
+}
+
+#[derive(Clone, Debug)]
+pub struct Prog {
+    pub target: String,
+    pub pipe: bool,
+    pub style: u64,
+    pub tys: Vec<Ty>,
+    pub sites: Vec<Site>,
+}
+
+fn show_site(s: &Site) -> String {
+    if s.wrap.is_empty() {
+        format!("{}@{}", s.kind, s.ty)
+    } else {
+        format!("{}.{}@{}", s.kind, s.wrap, s.ty)
+    }
+}
+
+pub fn show_prog(p: &Prog) -> String {
+    format!(
+        "C19.prog\t{}:{}:{}\t{}\t{}",
+        p.target,
+        if p.pipe { "pipe" } else { "np" },
+        p.style,
+        p.tys.iter().map(show).collect::<Vec<_>>().join(";"),
+        p.sites.iter().map(show_site).collect::<Vec<_>>().join(",")
+    )
+}
+
+pub fn parse_prog(f: &[&str]) -> Option<Prog> {
+    if f.len() != 4 || f[0] != "C19.prog" {
+        return None;
+    }
+    let h: Vec<&str> = f[1].split(':').collect();
+    if h.len() != 3 || !["vk", "dx", "msl"].contains(&h[0]) || !["np", "pipe"].contains(&h[1]) {
+        return None;
+    }
+    let style: u64 = h[2].parse().ok()?;
+    let tys = parse_types(f[2])?;
+    let mut sites = Vec::new();
+    for part in f[3].split(',') {
+        let (lhs, k) = part.split_once('@')?;
+        let ty: usize = k.parse().ok()?;
+        if ty >= tys.len() {
+            return None;
+        }
+        let (kind, wrap) = match lhs.split_once('.') {
+            Some((k, w)) => (k, w),
+            None => (lhs, ""),
+        };
+        let mut good = if wrap.is_empty() { GLOBAL_KINDS.contains(&kind) } else { FN_KINDS.contains(&kind) && WRAPS.contains(&wrap) };
+        if (wrap == "gi" || wrap == "da") && !["bload", "rwbload", "baload", "rwbaload"].contains(&kind) {
+            good = false;
+        }
+        if wrap == "ex" && !["bload", "bload2", "rwbload", "rwbload2", "baload", "rwbaload"].contains(&kind) {
+            good = false;
+        }
+        if !good {
+            return None;
+        }
+        sites.push(Site { kind: kind.into(), wrap: wrap.into(), ty });
+    }
+    // `void` can only be the whole type argument of a typed load that is really type checked
+    fn mentions_void(t: &Ty) -> bool {
+        match t {
+            Ty::Scalar('v') => true,
+            Ty::Arr(e, _) => mentions_void(e),
+            Ty::Struct(ms) => ms.iter().any(mentions_void),
+            _ => false,
+        }
+    }
+    for (k, t) in tys.iter().enumerate() {
+        if mentions_void(t) {
+            let fine = *t == Ty::Scalar('v')
+                && sites.iter().filter(|s| s.ty == k).all(|s| {
+                    ["bload", "bload2", "rwbload", "rwbload2", "baload", "rwbaload"].contains(&s.kind.as_str())
+                        && ["m", "u", "me", "p", "a"].contains(&s.wrap.as_str())
+                });
+            if !fine {
+                return None;
+            }
+        }
+    }
+    Some(Prog { target: h[0].into(), pipe: h[1] == "pipe", style, tys, sites })
+}
+
+/// where a diagnostic line points
+struct ProgLines {
+    site_line: Vec<usize>,
+    type_line: Vec<usize>,
+}
+
+fn prog_source(p: &Prog) -> (String, ProgLines) {
+    let mut s = Src { lines: Vec::new(), next: 0, style: p.style };
+    let mut names = Vec::new();
+    let mut type_line = Vec::new();
+    for t in &p.tys {
+        let (n, l) = s.top(t);
+        names.push(n);
+        type_line.push(l);
+    }
+    let mut site_line = vec![0usize; p.sites.len()];
+    // globals, in site order
+    for (i, site) in p.sites.iter().enumerate() {
+        if !site.wrap.is_empty() {
+            continue;
+        }
+        let n = &names[site.ty];
+        let a = targ(n);
+        let line = match site.kind.as_str() {
+            "sb" => format!("StructuredBuffer<{}> g{};", a, i),
+            "rwsb" => format!("RWStructuredBuffer<{}> g{};", a, i),
+            "sbc" => format!("const StructuredBuffer<const {}> g{};", a, i),
+            "sbtd" => format!("typedef StructuredBuffer<{}> SBT{}; SBT{} g{};", a, i, i, i),
+            "sbreg" => format!("StructuredBuffer<{}> g{} : register(t{});", a, i, i + 7),
+            "sbarr" => format!("StructuredBuffer<{}> g{}[4];", a, i),
+            "rwsbarr" => format!("RWStructuredBuffer<{}> g{}[2];", a, i),
+            "sbarr2" => format!("StructuredBuffer<{}> g{}[2][3];", a, i),
+            "sbarru" => format!("StructuredBuffer<{}> g{}[];", a, i),
+            "sbbl" => format!("[[rssl::bindless]] [[rssl::bind_group(1)]] StructuredBuffer<{}> g{}[1024];", a, i),
+            "sbmem" => format!("struct H{} {{ StructuredBuffer<{}> p; }}; H{} g{};", i, a, i, i),
+            "sbparam" => format!("void fparam{}(StructuredBuffer<{}> p) {{}}", i, a),
+            "cb" => format!("ConstantBuffer<{}> g{};", a, i),
+            "cbuf" => format!("cbuffer CB{} {{ {} cbm{}; }}", i, n, i),
+            "gv" => format!("{} g{};", n, i),
+            "gs" => format!("groupshared {} g{}[2];", n, i),
+            _ => format!("static {} g{};", n, i),
+        };
+        s.lines.push(line);
+        site_line[i] = s.lines.len();
+    }
+    // the raw buffers the typed loads / stores go through
+    let needs = |pred: &dyn Fn(&Site) -> bool| p.sites.iter().any(|x| !x.wrap.is_empty() && pred(x));
+    let obj_of = |kind: &str| -> (&'static str, &'static str) {
+        match kind {
+            "bload" | "bload2" => ("ByteAddressBuffer", "gbab"),
+            "rwbload" | "rwbload2" | "rwbstore" | "rwbstoret" => ("RWByteAddressBuffer", "grw"),
+            "baload" => ("BufferAddress", "gba"),
+            _ => ("RWBufferAddress", "grwba"),
+        }
+    };
+    for (obj, var) in [
+        ("ByteAddressBuffer", "gbab"),
+        ("RWByteAddressBuffer", "grw"),
+        ("BufferAddress", "gba"),
+        ("RWBufferAddress", "grwba"),
+    ] {
+        if needs(&|x| obj_of(&x.kind).1 == var && !["p", "me", "a"].contains(&x.wrap.as_str())) {
+            s.lines.push(format!("{} {};", obj, var));
+        }
+        if needs(&|x| obj_of(&x.kind).1 == var && x.wrap == "a") {
+            s.lines.push(format!("{} {}_a[4];", obj, var));
+        }
+    }
+    // statements of one typed load / store through buffer expression `b` with type name `n`
+    let stmts = |site: &Site, i: usize, b: &str, n: &str| -> String {
+        if n == "void" {
+            return match site.kind.as_str() {
+                "bload2" | "rwbload2" => format!("uint st{}; {}.Load<void>(0, st{});", i, b, i),
+                _ => format!("{}.Load<void>(0);", b),
+            };
+        }
+        match site.kind.as_str() {
+            "bload" | "rwbload" | "baload" | "rwbaload" => format!("{} v{} = {}.Load<{}>(0);", n, i, b, targ(n)),
+            "bload2" | "rwbload2" => format!("uint st{}; {} v{} = {}.Load<{}>(0, st{});", i, n, i, b, targ(n), i),
+            "rwbstore" | "rwbastore" => format!("{} v{}; {}.Store(0, v{});", n, i, b, i),
+            _ => format!("{} v{}; {}.Store<{}>(0, v{});", n, i, b, targ(n), i),
+        }
+    };
+    // functions other than main, in site order
+    for (i, site) in p.sites.iter().enumerate() {
+        if site.wrap.is_empty() {
+            continue;
+        }
+        let (obj, var) = obj_of(&site.kind);
+        let n = &names[site.ty];
+        match site.wrap.as_str() {
+            "u" => s.lines.push(format!("void fu{}() {{ {} }}", i, stmts(site, i, var, n))),
+            "p" => s.lines.push(format!("void fp{}({} b) {{ {} }}", i, obj, stmts(site, i, "b", n))),
+            "me" => s.lines.push(format!(
+                "struct M{} {{ float q; void run({} b) {{ {} }} }};", i, obj, stmts(site, i, "b", n)
+            )),
+            "t" | "t0" => s.lines.push(format!(
+                "template<typename T> void ft{}() {{ {} }}", i, stmts(site, i, var, "T")
+            )),
+            "gi" => s.lines.push(format!("static {} gi{} = {}.Load<{}>(0);", n, i, var, targ(n))),
+            "da" => s.lines.push(format!(
+                "float fda{}(uint q = sizeof({}.Load<{}>(0))) {{ return 0; }}", i, var, targ(n)
+            )),
+            _ => {}
+        }
+    }
+    if p.pipe {
+        s.lines.push("[numthreads(8, 8, 1)]".into());
+    }
+    s.lines.push("void main() {".into());
+    for (i, site) in p.sites.iter().enumerate() {
+        let (_obj, var) = obj_of(&site.kind);
+        let n = &names[site.ty];
+        match site.wrap.as_str() {
+            "m" => s.lines.push(format!("  {}", stmts(site, i, var, n))),
+            "a" => s.lines.push(format!("  {}", stmts(site, i, &format!("{}_a[1]", var), n))),
+            "t" => s.lines.push(format!("  ft{}<{}>();", i, targ(n))),
+            "ex" => s.lines.push(match site.kind.as_str() {
+                "bload2" | "rwbload2" => format!("  uint st{}; sizeof({}.Load<{}>(0, st{}));", i, var, targ(n), i),
+                _ => format!("  sizeof({}.Load<{}>(0));", var, targ(n)),
+            }),
+            _ => {}
+        }
+    }
+    s.lines.push("}".into());
+    if p.pipe {
+        s.lines.push("Pipeline P { ComputeShader = main; }".into());
+    }
+    (s.lines.join("\n") + "\n", ProgLines { site_line, type_line })
+}
+
+/// the sites the property speaks about: a structured buffer's element type, the type of a typed load / store
+fn property_site(site: &Site) -> Option<Option<&'static str>> {
+    if site.wrap.is_empty() {
+        match site.kind.as_str() {
+            "sb" | "rwsb" | "sbc" | "sbtd" | "sbreg" => Some(None),
+            "sbarr" | "rwsbarr" | "sbarr2" | "sbarru" | "sbbl" => Some(Some("site-sbarr")),
+            "sbmem" => Some(Some("site-sbmem")),
+            // a parameter type is not a buffer: the buffer is whatever global is passed. constant buffers, cbuffer
+            // members and plain variables are not named by the property
+            _ => None,
+        }
+    } else if site.wrap == "t0" {
+        None // the template is never instantiated: no load or store of the type exists
+    } else {
+        Some(None)
+    }
+}
+
+fn show_label(line: Option<usize>, lines: &ProgLines) -> String {
+    match line {
+        None => "?".into(),
+        Some(l) => {
+            if let Some(i) = lines.site_line.iter().position(|x| *x == l) {
+                format!("G{}", i)
+            } else if let Some(k) = lines.type_line.iter().position(|x| *x == l) {
+                format!("T{}", k)
+            } else {
+                format!("L{}", l)
+            }
+        }
+    }
+}
+
+fn run_prog(p: &Prog, out: &mut Out, hist: &mut Hist) {
+    let req = show_prog(p);
+    let (src, lines) = prog_source(p);
+    let real = run_real_lines(&src, &p.target, p.pipe);
+    let line = match &real {
+        Real::Unknown(l) | Real::Mismatch(l, _) => *l,
+        _ => None,
+    };
+    let label = show_label(line, &lines);
+    let obs = match &real {
+        Real::Accepted | Real::AcceptedThenError(_) => "ok".to_string(),
+        Real::Unknown(_) => format!("unknown@{}", label),
+        Real::Mismatch(_, n) => format!("mismatch@{} hlsl={}/{} metal={}/{}", label, n[0], n[1], n[2], n[3]),
+        Real::Error(_) => "error".to_string(),
+        Real::Panic(m) => format!("panic:{}", m.splitn(2, ": ").nth(1).unwrap_or(m)),
+    };
+    let uses: Vec<Use> = p
+        .sites
+        .iter()
+        .filter_map(|s| {
+            property_site(s).map(|c| Use { ty: &p.tys[s.ty], site_class: c, what: format!("[{}]", show_site(s)) })
+        })
+        .collect();
+    let blamed = match line {
+        Some(l) => {
+            if let Some(i) = lines.site_line.iter().position(|x| *x == l) {
+                Blamed::Type(&p.tys[p.sites[i].ty])
+            } else if let Some(k) = lines.type_line.iter().position(|x| *x == l) {
+                Blamed::Type(&p.tys[k])
+            } else {
+                Blamed::Unlocated
+            }
+        }
+        None => Blamed::Unlocated,
+    };
+    // with several types and no location the blamed one is not a structure (structures always have one)
+    let all: Vec<Ty> = p.tys.clone();
+    let (orc, class) = judge(&uses, &all, blamed, &real);
+    if std::env::var("C19_DEBUG").is_ok() {
+        eprintln!("--- {}\n{}", req, src);
+    }
+    hist.add(&format!("prog-class:{}", class));
+    hist.add(&format!("prog-target:{}:{}", p.target, if p.pipe { "pipe" } else { "np" }));
+    hist.add(&format!("prog-style:{}", if p.style == 0 { "plain" } else { "varied" }));
+    hist.add(&format!("prog-types:{}", p.tys.len()));
+    hist.add(&format!("prog-sites:{}", p.sites.len()));
+    for s in &p.sites {
+        if s.wrap.is_empty() {
+            hist.add(&format!("site:{}", s.kind));
+        } else {
+            hist.add(&format!("site:{}", s.kind));
+            hist.add(&format!("wrap:{}", s.wrap));
+        }
+    }
+    for t in &p.tys {
+        hist.add(&format!("depth:{}", depth(t)));
+        note_shape(t, hist, true);
+    }
+    out.case(&req, &obs, &orc);
 }
 
 // ------------------------------------------------------------------------------------------------
@@ -514,7 +1193,12 @@ fn note_shape(t: &Ty, hist: &mut Hist, top: bool) {
             hist.add(&format!("leaf:{}", scalar_name(*c)));
             hist.add(&format!("vec:{}", n));
         }
-        Ty::Mat(..) => hist.add("leaf:matrix"),
+        Ty::Mat(c, r, k, m) => {
+            hist.add("leaf:matrix");
+            hist.add(&format!("matrix:{}{}x{}{}", c, r, k, m));
+        }
+        Ty::Undeclared(n) => hist.add(&format!("leaf:undeclared:{}", n)),
+        Ty::Object(n) => hist.add(&format!("leaf:object:{}", n)),
         Ty::Enum(_) => hist.add("leaf:enum"),
         Ty::Arr(e, n) => {
             hist.add(&format!("array-len:{}", n));
@@ -634,11 +1318,41 @@ pub fn run(args: &Args, out: &mut Out) {
     if let Some(lines) = args.request_lines() {
         for line in lines {
             let f: Vec<&str> = line.split('\t').collect();
+            if f.first() == Some(&"C19.ref") && f.len() == 2 {
+                // the two reference calculators on one type (cross-checked against Spec/LayoutFull.lean)
+                let obs = match parse_types(f[1]) {
+                    Some(tys) if tys.len() == 1 => {
+                        let one = |r: Rule| match ref_layout(r, &tys[0]) {
+                            Some(l) => format!(
+                                "{}/{}/{}",
+                                l.size,
+                                l.align,
+                                l.fields.iter().map(|(_, o)| o.to_string()).collect::<Vec<_>>().join(",")
+                            ),
+                            None => "none".into(),
+                        };
+                        format!("h={} m={}", one(Rule::HlslSB), one(Rule::Metal))
+                    }
+                    _ => "bad-request".into(),
+                };
+                out.case(&line, &obs, "ok");
+                continue;
+            }
+            if f.first() == Some(&"C19.prog") {
+                match parse_prog(&f) {
+                    Some(p) => run_prog(&p, out, &mut hist),
+                    None => out.case(&line, "bad-request", "SKIP:bad request"),
+                }
+                continue;
+            }
             if f.len() != 3 || f[0] != "C19.check" || !USES.contains(&f[1]) {
                 out.case(&line, "bad-request", "SKIP:bad request");
                 continue;
             }
             match parse_types(f[2]) {
+                Some(tys) if tys.iter().any(|t| show(t).split(|c: char| !c.is_alphanumeric()).any(|w| w == "v")) => {
+                    out.case(&line, "bad-request", "SKIP:bad request")
+                }
                 Some(tys) => run_one(f[1], &tys, out, &mut hist),
                 None => out.case(&line, "bad-request", "SKIP:bad request"),
             }
@@ -718,17 +1432,285 @@ pub fn run(args: &Args, out: &mut Out) {
         // now and then a member without a layout (bool / matrix): the "unknown size" verdict
         if rng.chance(1, 40) {
             if let Ty::Struct(ms) = &mut tys[0] {
-                let bad = if rng.chance(1, 2) { Ty::Scalar('b') } else { Ty::Mat('f', 2, 2) };
+                let bad = if rng.chance(1, 2) { Ty::Scalar('b') } else { Ty::Mat('f', 2, 2, '-') };
                 let at = rng.below(ms.len() as u64 + 1) as usize;
                 ms.insert(at, bad);
             }
         }
         run_one(usage, &tys, out, &mut hist);
     }
+    prog_streams(args, &mut rng, out, &mut hist);
     out.stat(&format!(
         "{{\"stream\":\"generated\",\"tier\":{},\"seed\":{},\"hist\":{}}}",
         json_str(&args.tier),
         args.seed,
         hist.json()
     ));
+}
+
+// ------------------------------------------------------------------------------------------------
+// generators for whole programs
+// ------------------------------------------------------------------------------------------------
+const WIDE_SCALARS: &[char] = &['h', 'i', 'u', 'f', 'd', 'b'];
+const MAJORS: &[char] = &['-', 'r', 'c'];
+const UNDECLARED: &[&str] = &[
+    "float16_t", "float32_t", "float64_t", "int16_t", "uint16_t", "int64_t", "uint64_t", "min16float", "min10float",
+    "min16int", "min12int", "min16uint", "uint8_t", "long", "unsigned", "short", "char", "size_t",
+];
+
+fn all_sites() -> Vec<(String, String)> {
+    let mut v: Vec<(String, String)> = GLOBAL_KINDS.iter().map(|k| (k.to_string(), String::new())).collect();
+    for k in FN_KINDS {
+        for w in WRAPS {
+            let plain_load = ["bload", "rwbload", "baload", "rwbaload"].contains(k);
+            let load = plain_load || ["bload2", "rwbload2"].contains(k);
+            if ((*w == "gi" || *w == "da") && !plain_load) || (*w == "ex" && !load) {
+                continue;
+            }
+            v.push((k.to_string(), w.to_string()));
+        }
+    }
+    v
+}
+
+fn wide_leaf(rng: &mut Rng) -> Ty {
+    match rng.below(24) {
+        0 => {
+            if rng.chance(1, 3) { Ty::Object(rng.pick(OBJECTS).to_string()) } else { Ty::Enum(rng.chance(1, 3)) }
+        }
+        1..=8 => Ty::Scalar(*rng.pick(WIDE_SCALARS)),
+        9..=18 => Ty::Vec(*rng.pick(WIDE_SCALARS), rng.range(1, 4) as u32),
+        _ => Ty::Mat(*rng.pick(WIDE_SCALARS), rng.range(1, 4) as u32, rng.range(1, 4) as u32, *rng.pick(MAJORS)),
+    }
+}
+
+/// the property's grid widened: bool, 1-vectors, matrices, empty structs, arrays of arrays of arrays, any depth
+fn wide_struct(rng: &mut Rng, depth_left: u32, max_members: i64, exotic: u64) -> Ty {
+    if rng.chance(1, 40) {
+        return Ty::Struct(vec![]);
+    }
+    let n = rng.range(1, max_members);
+    let mut ms = Vec::new();
+    for _ in 0..n {
+        let mut t = if depth_left > 0 && rng.chance(1, 3) {
+            wide_struct(rng, depth_left - 1, 4, exotic)
+        } else if rng.chance(exotic, 100) {
+            wide_leaf(rng)
+        } else {
+            random_leaf(rng)
+        };
+        let mut dims = 0;
+        while dims < 3 && rng.chance(1, 5) {
+            t = Ty::Arr(Box::new(t), rng.range(1, 4) as u64);
+            dims += 1;
+        }
+        ms.push(t);
+    }
+    Ty::Struct(ms)
+}
+
+/// a chain of structs nested `depth` deep with a vector at the bottom, so that tail padding matters at every level
+fn deep_chain(rng: &mut Rng, depth: u32) -> Ty {
+    let mut t = Ty::Struct(vec![random_leaf(rng), random_leaf(rng)]);
+    for _ in 1..depth {
+        let mut ms = vec![t];
+        if rng.chance(1, 2) {
+            ms.insert(if rng.chance(1, 2) { 0 } else { 1 }, random_leaf(rng));
+        }
+        if rng.chance(1, 4) {
+            let k = rng.below(ms.len() as u64) as usize;
+            ms[k] = Ty::Arr(Box::new(ms[k].clone()), rng.range(1, 3) as u64);
+        }
+        t = Ty::Struct(ms);
+    }
+    t
+}
+
+/// a random structure whose two reference layouts agree
+fn agreeing_struct(rng: &mut Rng) -> Ty {
+    for _ in 0..40 {
+        let t = match rng.below(4) {
+            0 => random_struct(rng, 2, 4),
+            1 => wide_struct(rng, 2, 4, 10),
+            _ => random_tight_struct(rng),
+        };
+        if !contains_empty_struct(&t) && agrees(&t) == Some(true) {
+            return t;
+        }
+    }
+    // no vectors: the two rule sets coincide
+    let n = rng.range(1, 5);
+    Ty::Struct((0..n).map(|_| Ty::Scalar(*rng.pick(SCALARS))).collect())
+}
+
+fn prog_streams(args: &Args, rng: &mut Rng, out: &mut Out, hist: &mut Hist) {
+    let thorough = args.thorough();
+    let sites = all_sites();
+    let bad = Ty::Struct(vec![Ty::Scalar('f'), Ty::Vec('f', 2)]); // 12 bytes in HLSL, 16 in Metal
+    let bad2 = Ty::Struct(vec![Ty::Scalar('h'), Ty::Vec('h', 2), Ty::Scalar('f')]); // 12 / 12, offsets differ
+    let good = Ty::Struct(vec![Ty::Scalar('f'), Ty::Scalar('f')]);
+    let targets = ["vk", "dx", "msl"];
+    let mk = |target: &str, pipe: bool, style: u64, tys: Vec<Ty>, ss: Vec<(&(String, String), usize)>| Prog {
+        target: target.into(),
+        pipe,
+        style,
+        tys,
+        sites: ss.into_iter().map(|(s, k)| Site { kind: s.0.clone(), wrap: s.1.clone(), ty: k }).collect(),
+    };
+    // P1. every kind of site on its own with a structure whose two layouts differ, on every target, in both modes;
+    //     and with one whose layouts agree
+    for s in &sites {
+        for t in targets {
+            for pipe in [false, true] {
+                run_prog(&mk(t, pipe, 0, vec![bad.clone()], vec![(s, 0)]), out, hist);
+                if thorough {
+                    run_prog(&mk(t, pipe, 0, vec![bad2.clone()], vec![(s, 0)]), out, hist);
+                    run_prog(&mk(t, pipe, 0, vec![good.clone()], vec![(s, 0)]), out, hist);
+                }
+            }
+        }
+        run_prog(&mk("vk", false, 0, vec![good.clone()], vec![(s, 0)]), out, hist);
+        run_prog(&mk("msl", true, rng.next() | 1, vec![bad2.clone()], vec![(s, 0)]), out, hist);
+    }
+    // P2. two sites: an agreeing structure at one and a differing one at the other, in both orders; the same
+    //     differing structure first at a site validation ignores and then at one it must look at (and vice versa)
+    for s in &sites {
+        let reps = if thorough { 6 } else { 1 };
+        for _ in 0..reps {
+            let other = rng.pick(&sites).clone();
+            let t = *rng.pick(&targets);
+            let pipe = rng.chance(1, 2);
+            let style = if rng.chance(1, 2) { 0 } else { rng.next() | 1 };
+            run_prog(&mk(t, pipe, style, vec![good.clone(), bad.clone()], vec![(&other, 0), (s, 1)]), out, hist);
+            run_prog(&mk(t, pipe, style, vec![good.clone(), bad.clone()], vec![(s, 1), (&other, 0)]), out, hist);
+            run_prog(&mk(t, pipe, style, vec![bad.clone()], vec![(&other, 0), (s, 0)]), out, hist);
+            run_prog(&mk(t, pipe, style, vec![bad2.clone(), bad.clone()], vec![(&other, 0), (s, 1)]), out, hist);
+        }
+    }
+    // P3. the widened type universe, one member type at a time, through a structured buffer and a typed load
+    let mut wide = Vec::new();
+    for c in WIDE_SCALARS {
+        wide.push(Ty::Scalar(*c));
+        for n in 1..=4 {
+            wide.push(Ty::Vec(*c, n));
+        }
+        for r in 1..=4 {
+            for k in 1..=4 {
+                for m in MAJORS {
+                    wide.push(Ty::Mat(*c, r, k, *m));
+                }
+            }
+        }
+    }
+    wide.push(Ty::Enum(false));
+    wide.push(Ty::Enum(true));
+    wide.push(Ty::Struct(vec![]));
+    for u in UNDECLARED {
+        wide.push(Ty::Undeclared(u.to_string()));
+    }
+    for o in OBJECTS {
+        wide.push(Ty::Object(o.to_string()));
+    }
+    let sb = ("sb".to_string(), String::new());
+    let ld = ("bload".to_string(), "m".to_string());
+    let st = ("rwbastore".to_string(), "u".to_string());
+    for (j, w) in wide.iter().enumerate() {
+        let is_mat = matches!(w, Ty::Mat(..));
+        if is_mat && !thorough && !rng.chance(1, 4) {
+            continue;
+        }
+        let shapes = vec![
+            Ty::Struct(vec![w.clone()]),
+            Ty::Struct(vec![w.clone(), Ty::Scalar('f')]),
+            Ty::Struct(vec![Ty::Scalar('h'), w.clone()]),
+            Ty::Struct(vec![Ty::Arr(Box::new(w.clone()), 3), Ty::Scalar('i')]),
+            Ty::Struct(vec![Ty::Scalar('f'), Ty::Struct(vec![w.clone()]), Ty::Scalar('f')]),
+        ];
+        for (q, shape) in shapes.into_iter().enumerate() {
+            if !thorough && q >= 3 && !rng.chance(1, 3) {
+                continue;
+            }
+            let site = match (j + q) % 3 {
+                0 => &sb,
+                1 => &ld,
+                _ => &st,
+            };
+            let style = if (j + q) % 2 == 0 { 0 } else { rng.next() | 1 };
+            run_prog(&mk(targets[(j + q) % 3], q % 2 == 1, style, vec![shape], vec![(site, 0)]), out, hist);
+        }
+        // the leaf itself as the element type, where the language allows it
+        if !matches!(w, Ty::Struct(_) | Ty::Object(_)) {
+            run_prog(&mk("vk", false, 0, vec![w.clone()], vec![(&ld, 0)]), out, hist);
+            if !matches!(w, Ty::Enum(_)) {
+                run_prog(&mk("msl", false, 0, vec![w.clone()], vec![(&sb, 0)]), out, hist);
+            }
+        }
+    }
+    // `void` as the type argument of a typed load: no layout, a clean diagnostic
+    for k in ["bload", "bload2", "rwbload", "rwbload2", "baload", "rwbaload"] {
+        for w in ["m", "u", "me", "p", "a"] {
+            let site = (k.to_string(), w.to_string());
+            run_prog(&mk(*rng.pick(&targets), rng.chance(1, 2), 0, vec![Ty::Scalar('v')], vec![(&site, 0)]), out, hist);
+            run_prog(
+                &mk("vk", false, 0, vec![good.clone(), Ty::Scalar('v'), bad.clone()], vec![(&sb, 0), (&site, 1), (&ld, 2)]),
+                out,
+                hist,
+            );
+        }
+    }
+    // P4. nesting depth 4-7
+    let n_deep = if thorough { 4000 } else { 200 };
+    for k in 0..n_deep {
+        let t = deep_chain(rng, 4 + (k % 4) as u32);
+        let site = rng.pick(&sites).clone();
+        let style = if rng.chance(1, 2) { 0 } else { rng.next() | 1 };
+        run_prog(&mk(*rng.pick(&targets), rng.chance(1, 2), style, vec![t], vec![(&site, 0)]), out, hist);
+    }
+    // P5. random programs: 1-3 types, 1-5 sites of any kind
+    let n = if thorough { 60000 } else { 1500 };
+    for _ in 0..n {
+        let nt = rng.range(1, 3) as usize;
+        let mut tys = Vec::new();
+        // half of the programs: every structure agrees except (perhaps) one, so that a use site validation does not
+        // look at decides the verdict
+        let mostly_agreeing = rng.chance(1, 2);
+        let odd_one = if rng.chance(3, 4) { rng.below(nt as u64) as usize } else { usize::MAX };
+        for k in 0..nt {
+            if mostly_agreeing && k != odd_one {
+                tys.push(agreeing_struct(rng));
+                continue;
+            }
+            tys.push(match rng.below(10) {
+                0..=2 => random_tight_struct(rng),
+                3..=5 => random_struct(rng, 2, 5),
+                6..=7 => wide_struct(rng, 3, 5, 25),
+                8 => wide_struct(rng, 1, 3, 60),
+                _ => {
+                    // a non-structure at the top: vector, enum, array of structs (typed loads / stores only)
+                    match rng.below(3) {
+                        0 => wide_leaf(rng),
+                        1 => Ty::Arr(Box::new(random_tight_struct(rng)), rng.range(1, 3) as u64),
+                        _ => Ty::Arr(Box::new(random_leaf(rng)), rng.range(1, 4) as u64),
+                    }
+                }
+            });
+        }
+        let ns = rng.range(1, 5) as usize;
+        let mut ss = Vec::new();
+        for _ in 0..ns {
+            let k = rng.below(nt as u64) as usize;
+            let top_struct = matches!(tys[k], Ty::Struct(_));
+            // structured buffers need a struct / scalar / vector / matrix element; everything else goes through a load
+            let s = loop {
+                let s = rng.pick(&sites);
+                let needs_struct = s.1.is_empty() && !["gv", "gs", "st", "cbuf"].contains(&s.0.as_str());
+                if top_struct || !needs_struct || matches!(tys[k], Ty::Scalar(_) | Ty::Vec(..) | Ty::Mat(..)) && s.0 != "cb" {
+                    break s;
+                }
+            };
+            ss.push((s, k));
+        }
+        let style = if rng.chance(1, 2) { 0 } else { rng.next() | 1 };
+        run_prog(&mk(*rng.pick(&targets), rng.chance(1, 3), style, tys.clone(), ss), out, hist);
+    }
 }
